@@ -716,6 +716,37 @@ impl<'a> Em<'a> {
         if !self.force_zlib && !self.p([0, 500, 800], "struct-flate") {
             return data;
         }
+        // Other filters a structural stream may legally carry: LZW (with or without predictor),
+        // ASCII85 alone, ASCII85 around Flate (DecodeParms then has to be an array).
+        if !self.force_zlib && self.f == 2 {
+            match self.d(8, "struct-other-filter") {
+                5 => return self.encode_lzw_structural(d, data, cols),
+                6 => {
+                    self.ctx.count("struct-ascii85");
+                    d.push((b"Filter".to_vec(), MObj::Name(b"ASCII85Decode".to_vec())));
+                    return ascii85_encode(&data);
+                }
+                7 => {
+                    self.ctx.count("struct-ascii85-flate-chain");
+                    let mut body = data;
+                    let mut parms = MObj::Null;
+                    if cols > 0 && self.d(2, "chain-predictor") == 1 {
+                        self.ctx.count("struct-chain-predictor-in-parms-array");
+                        body = self.png_predict(&body, cols, 12);
+                        parms = MObj::Dict(vec![(b"Predictor".to_vec(), MObj::Int(12)), (b"Columns".to_vec(), MObj::Int(cols as i64))]);
+                    }
+                    d.push((
+                        b"Filter".to_vec(),
+                        MObj::Array(vec![MObj::Name(b"ASCII85Decode".to_vec()), MObj::Name(b"FlateDecode".to_vec())]),
+                    ));
+                    if parms != MObj::Null {
+                        d.push((b"DecodeParms".to_vec(), MObj::Array(vec![MObj::Null, parms])));
+                    }
+                    return ascii85_encode(&self.flate(&body));
+                }
+                _ => {}
+            }
+        }
         self.ctx.count(what[0]);
         let mut body = data;
         if self.p([0, 400, 600], "struct-predictor") && cols > 0 {
@@ -739,6 +770,33 @@ impl<'a> Em<'a> {
         }
         d.push((b"Filter".to_vec(), MObj::Name(b"FlateDecode".to_vec())));
         self.flate(&body)
+    }
+
+    fn encode_lzw_structural(&self, d: &mut MDict, data: Vec<u8>, cols: usize) -> Vec<u8> {
+        self.ctx.count("struct-lzw");
+        let mut body = data;
+        let mut parms: MDict = Vec::new();
+        if cols > 0 && self.d(2, "lzw-predictor") == 1 {
+            self.ctx.count("struct-lzw-predictor");
+            body = self.png_predict(&body, cols, 12);
+            parms.push((b"Predictor".to_vec(), MObj::Int(12)));
+            parms.push((b"Columns".to_vec(), MObj::Int(cols as i64)));
+        }
+        let early = self.d(3, "lzw-early-change") != 2;
+        if !early {
+            self.ctx.count("struct-lzw-early-change-0");
+            parms.push((b"EarlyChange".to_vec(), MObj::Int(0)));
+        }
+        if !parms.is_empty() {
+            d.push((b"DecodeParms".to_vec(), MObj::Dict(parms)));
+        }
+        d.push((b"Filter".to_vec(), MObj::Name(b"LZWDecode".to_vec())));
+        if self.d(3, "lzw-literal-only") == 1 {
+            self.ctx.count("struct-lzw-literal-codes-only");
+            lzw_encode_literals(&body)
+        } else {
+            lzw_encode(&body, early)
+        }
     }
 
     /// the decoded content of an object stream: index block, padding, members
@@ -1216,4 +1274,116 @@ pub fn draw_opts(ctx: &Ctx, n_revisions: usize, version: &str, binary_mark: &[u8
         misdesignate: false,
         force_structural_zlib: false,
     }
+}
+
+
+// ---------------------------------------------------------------- own encoders (not lopdf's twins)
+
+fn ascii85_encode(data: &[u8]) -> Vec<u8> {
+    let mut out = Vec::new();
+    for (k, ch) in data.chunks(4).enumerate() {
+        let mut b = [0u8; 4];
+        b[..ch.len()].copy_from_slice(ch);
+        let mut v = u32::from_be_bytes(b);
+        if ch.len() == 4 && v == 0 {
+            out.push(b'z');
+        } else {
+            let mut dgt = [0u8; 5];
+            for i in (0..5).rev() {
+                dgt[i] = (v % 85) as u8 + b'!';
+                v /= 85;
+            }
+            out.extend_from_slice(&dgt[..ch.len() + 1]);
+        }
+        if k % 15 == 14 {
+            out.push(b'\n'); // white-space is allowed anywhere in the encoded data
+        }
+    }
+    out.extend_from_slice(b"~>");
+    out
+}
+
+struct BitWriter {
+    out: Vec<u8>,
+    acc: u32,
+    n: u32,
+}
+impl BitWriter {
+    fn put(&mut self, code: u16, width: u32) {
+        self.acc = (self.acc << width) | code as u32;
+        self.n += width;
+        while self.n >= 8 {
+            self.out.push((self.acc >> (self.n - 8)) as u8);
+            self.n -= 8;
+            self.acc &= (1 << self.n) - 1;
+        }
+    }
+    fn finish(mut self) -> Vec<u8> {
+        if self.n > 0 {
+            self.out.push((self.acc << (8 - self.n)) as u8);
+        }
+        self.out
+    }
+}
+
+/// A legal LZW stream that never uses a table entry: literals with a clear code often enough
+/// that the code width stays at 9 bits.
+fn lzw_encode_literals(data: &[u8]) -> Vec<u8> {
+    let mut w = BitWriter { out: Vec::new(), acc: 0, n: 0 };
+    w.put(256, 9);
+    for (i, &b) in data.iter().enumerate() {
+        if i > 0 && i % 200 == 0 {
+            w.put(256, 9);
+        }
+        w.put(b as u16, 9);
+    }
+    w.put(257, 9);
+    w.finish()
+}
+
+/// LZW as used by PDF's LZWDecode (MSB first, 9..12 bit codes, clear 256, end 257); `early`:
+/// the code width grows one code early (EarlyChange 1, the default).
+fn lzw_encode(data: &[u8], early: bool) -> Vec<u8> {
+    use std::collections::BTreeMap;
+    let mut w = BitWriter { out: Vec::new(), acc: 0, n: 0 };
+    let mut table: BTreeMap<(u16, u8), u16> = BTreeMap::new();
+    let mut next: u16 = 258;
+    let mut width: u32 = 9;
+    w.put(256, width);
+    let mut cur: Option<u16> = None;
+    for &b in data {
+        match cur {
+            None => cur = Some(b as u16),
+            Some(p) => {
+                if let Some(&c) = table.get(&(p, b)) {
+                    cur = Some(c);
+                } else {
+                    w.put(p, width);
+                    table.insert((p, b), next);
+                    next += 1;
+                    // the decoder's table is one entry behind the encoder's
+                    if next as u32 - 1 + early as u32 >= (1u32 << width) && width < 12 {
+                        width += 1;
+                    }
+                    if next >= 4093 {
+                        w.put(256, width);
+                        table.clear();
+                        next = 258;
+                        width = 9;
+                    }
+                    cur = Some(b as u16);
+                }
+            }
+        }
+    }
+    if let Some(p) = cur {
+        w.put(p, width);
+        // the decoder adds one more entry after this code: account for a width change before the end code
+        next += 1;
+        if next as u32 - 1 + early as u32 >= (1u32 << width) && width < 12 {
+            width += 1;
+        }
+    }
+    w.put(257, width);
+    w.finish()
 }
